@@ -494,8 +494,8 @@ def _validate_event_connectivity(
             f"The following events are produced but never consumed: {names}"
         )
 
-    return (
-        InputRequiredEvent in produced_events or HumanResponseEvent in consumed_events
+    return any(issubclass(ev, InputRequiredEvent) for ev in produced_events) or any(
+        issubclass(ev, HumanResponseEvent) for ev in consumed_events
     )
 
 
